@@ -23,12 +23,26 @@ import (
 	"icesim/sim"
 )
 
-const verifDir = "/verif"
+// verifDir is the directory the machinery lives in: the working directory
+// check.sh changes into (normally /verif; a snapshot of it for background runs).
+var verifDir = func() string {
+	if d := os.Getenv("ICESIM_VERIF_DIR"); d != "" {
+		return d
+	}
+	if d, err := os.Getwd(); err == nil {
+		if _, err := os.Stat(filepath.Join(d, "known_findings.json")); err == nil {
+			return d
+		}
+	}
+	return "/verif"
+}()
 
 func main() {
 	if len(os.Args) < 2 {
 		usage()
 	}
+	sim.GoldenDir = filepath.Join(verifDir, "golden")
+	os.Setenv("ICESIM_VERIF_DIR", verifDir)
 	switch os.Args[1] {
 	case "selftest":
 		if err := selftest(); err != nil {
